@@ -562,7 +562,8 @@ class IntegralGenerator:
             tables += table
             # Define B_rhs = fw * arg_factors
             insert_rank = block_rank
-            if self.ir.part == TensorPart.diagonal:
+            # The diagonal part only concerns bilinear forms
+            if self.ir.part == TensorPart.diagonal and block_rank == 2:
                 insert_rank = 1
                 B_indices = [B_indices[0]]
             B_rhs = L.float_product([fw] + arg_factors)
